@@ -56,6 +56,11 @@ def load_seeded(props=None) -> list:
         for pid in sorted(props) if props else [f'C{i:02d}' for i in range(1, 21)]:
             out.append({'id': f'refactoring:{m.parent.name}', 'kind': 'equiv', 'prop': pid,
                         'patch': str(m.parent / 'patch.diff')})
+    # hand-written syntax stress (tools/stress_equiv.py --save): constructs the pinned tree does not use
+    for m in sorted((root / 'stress_equiv').glob('*/meta.json')):
+        for pid in sorted(props) if props else [f'C{i:02d}' for i in range(1, 21)]:
+            out.append({'id': f'stress:{m.parent.name}', 'kind': 'equiv', 'prop': pid,
+                        'patch': str(m.parent / 'patch.diff')})
     return out
 
 
